@@ -207,3 +207,28 @@ pub fn json_escape(s: &str) -> String {
 	}
 	o
 }
+
+/// A reader that fails exactly once with `ErrorKind::Interrupted` when `at`
+/// bytes have been delivered, and otherwise behaves like its `SchedReader`.
+pub struct InterruptOnce {
+	pub inner: SchedReader,
+	pub at: usize,
+	pub fired: bool,
+}
+
+impl Read for InterruptOnce {
+	fn read(&mut self, buf: &mut [u8]) -> io::Result<usize> {
+		if !self.fired && self.inner.pos >= self.at && !buf.is_empty() {
+			self.fired = true;
+			return Err(io::Error::new(io::ErrorKind::Interrupted, "INJECTED-INTERRUPT"));
+		}
+		// Never deliver past `at` before the interrupt fired, so that it lands
+		// exactly at that offset.
+		if !self.fired && !buf.is_empty() {
+			let room = self.at - self.inner.pos;
+			let n = buf.len().min(room.max(1));
+			return self.inner.read(&mut buf[..n]);
+		}
+		self.inner.read(buf)
+	}
+}
